@@ -65,6 +65,8 @@ type Environment interface {
 }
 
 type Network struct {
+	// FdBase: the first descriptor number the simulated kernel hands out (3; 0 = standard streams closed)
+	FdBase int
 	// Ifaces: the host's interface table as net.Interfaces reports it (nil: DefaultIfaces)
 	Ifaces []Interface
 	// SendFails, when set, lets the environment make a send fail locally (ENETUNREACH, ENOBUFS ...):
@@ -82,7 +84,7 @@ type Network struct {
 }
 
 func newNetwork(e *Exec) *Network {
-	return &Network{e: e, nextEph: 40000}
+	return &Network{e: e, nextEph: 40000, FdBase: 3}
 }
 
 // Net returns the simulated network of the current execution.
@@ -436,7 +438,8 @@ func (r rawConn) Control(f func(fd uintptr)) error    { f(r.fd); return nil }
 func (r rawConn) Read(f func(fd uintptr) bool) error  { return errors.New("not supported") }
 func (r rawConn) Write(f func(fd uintptr) bool) error { return errors.New("not supported") }
 
-const fdBase = 1000
+// The descriptor numbers the simulated kernel hands out start at Network.FdBase: 3 in an ordinary
+// process (stdin, stdout, stderr are open), 0 in one started with its standard streams closed.
 
 // SetsockoptInt replaces syscall.SetsockoptInt: options land in the simulated socket.
 func SetsockoptInt(fd, level, opt int, value int) error {
@@ -444,6 +447,7 @@ func SetsockoptInt(fd, level, opt int, value int) error {
 	if e.aborted.Load() {
 		return nil
 	}
+	fdBase := e.Net.FdBase
 	if fd < fdBase || fd-fdBase >= len(e.Net.socks) {
 		return syscall.EBADF
 	}
@@ -504,7 +508,7 @@ func (d *Dialer) Dial(network, address string) (Conn, error) {
 	s := &sockState{fd: len(n.socks), proto: proto, rdl: -1, wdl: -1, openedBy: e.cur.id, closed: true}
 	n.socks = append(n.socks, s)
 	if d.Control != nil {
-		if err := d.Control(network, address, rawConn{fd: uintptr(fdBase + s.fd)}); err != nil {
+		if err := d.Control(network, address, rawConn{fd: uintptr(e.Net.FdBase + s.fd)}); err != nil {
 			e.note(e.cur, "dial-control-fail")
 			return nil, &net.OpError{Op: "dial", Net: network, Err: err}
 		}
